@@ -91,6 +91,10 @@ type niCase struct {
 	restructure func(comp compiler.Name, d *decoded) map[string][]byte
 	// re-encoding with the challenge of repetition i replaced
 	withChallenge func(comp compiler.Name, d *decoded, i int, e []byte) []byte
+	// adaptive-statement forgery (Schnorr only): given the challenge derivation that ignores
+	// the statement, returns a proof, the bytes of a statement chosen after the challenge for
+	// which the proof satisfies the sigma relation, and the compiled verifier's verdict on it
+	adaptive func(r *vh.Rng, deriveNoStmt func(a []byte) []byte) (proof, stmt []byte, verdict func(cs ctxSpec) string)
 	// interactive compilers (sigma.Prover/Verifier, zk.Prover/Verifier); "" = as expected
 	runInteractive func(kind string, cs ctxSpec, r *vh.Rng) string
 }
